@@ -26,6 +26,15 @@ def uniqueText (r : UniqueRule) : String :=
 def entityInits (e : Entity) : List (String × String) :=
   (e.attrs.filter (·.kind == .derived)).map (fun a => (dictAttrName a, a.init))
 
+/-- `EntityDescriptor::AddSupertype_Stmt( … )` (classes_entity.c `ENTITYincode_print`): nothing for an entity that is neither
+    abstract nor constrains its subtypes -/
+def supertypeStmt (e : Entity) : Option String :=
+  match e.abstract, e.superExpr with
+  | true, some x => some (stmtAbstractOpen ++ x ++ stmtClose)
+  | true, none => some stmtAbstract
+  | false, some x => some (stmtOpen ++ x ++ stmtClose)
+  | false, none => none
+
 /-- the rule lists of one descriptor -/
 structure DRules where
   owner : String
